@@ -4,7 +4,8 @@ from .. import core, real, gen, e2e
 from ..leandrv import Driver
 
 MODULE = 'Bluebell.Props.C03'
-THEOREMS = ['Bluebell.C03_merge_keeps_text', 'Bluebell.C03_normalise_keeps_text', 'Bluebell.C03_unreferenced_block_keeps_text', 'Bluebell.C03_eids_titles_keep_text', 'Bluebell.C03_examples', 'Bluebell.C03_xml_building_keeps_text']
+THEOREMS = ['Bluebell.C03_merge_keeps_text', 'Bluebell.C03_normalise_keeps_text', 'Bluebell.C03_unreferenced_block_keeps_text', 'Bluebell.C03_eids_titles_keep_text', 'Bluebell.C03_examples', 'Bluebell.C03_xml_building_keeps_text',
+            'Bluebell.C03_plain_line_is_its_text', 'Bluebell.C03_ordinary_first_chars', 'Bluebell.line_of_plain']
 TOKEN = re.compile('w\\d+|ש\\d+ם|ب\\d+ت|\U00010348\\d+\U0001F600|ж\\d+я')
 SKIP_ATTRS = {'eId', 'by'}
 
